@@ -51,10 +51,29 @@ LoadOutcome checked_load(const uint8_t* win, size_t n, const LoadOpts& o, MV* tr
     else if (ref.st != R_ITEM) {
       fail("C02", "invalid-input-accepted", where + fmt(": item returned, reference says %s at %llu", rstatus_name(ref.st), (unsigned long long)ref.pos));
     } else {
+      std::vector<uint8_t> keep_bytes; if (ref.read <= ((uint64_t)1 << 20) && ref.read <= n) keep_bytes.assign(w, w + (size_t)ref.read);
       if (res.read != ref.read) fail("C14", "bytes-read-differs", where + fmt(": read=%zu, the first item occupies %llu byte(s)", res.read, (unsigned long long)ref.read));
       if (owned) { memset(owned, 0x5A, n); free(owned); owned = nullptr; w = nullptr; }   // the input may be overwritten/freed at once
       std::string why;
       if (!failed() && !impl_equals(item, ref.tree, why)) fail("C14", "tree-differs", where + ": " + why);
+      // "the same tree as decoding x alone": decode the item's own bytes once more, alone, from a block that starts at a different
+      // alignment, and compare everything the getters show (a decoder that scans the input word-wise sees the same item differently)
+      { static thread_local uint64_t nth = 0;
+        if (!failed() && !g_task_mode && o.fault.kind == F_NONE && (nth++ % 4) == 0 && ref.read <= ((uint64_t)1 << 20)) {
+          uint64_t d1 = impl_observables_digest(item);
+          unsigned shift = 1 + (unsigned)(nth % 7); unsigned char* raw = (unsigned char*)malloc((size_t)ref.read + 16); unsigned char* w2 = raw + shift;
+          // the item's bytes were taken before the window may be scribbled: they are the reference encoding's prefix of this window
+          memcpy(w2, keep_bytes.data(), (size_t)ref.read);
+          struct cbor_load_result r2; sa_begin(FaultSpec()); cbor_item_t* alone = cbor_load(w2, (size_t)ref.read, &r2); sa_end();
+          if (!alone) fail("C14", "acceptable-item-rejected", where + fmt(": the item's own %llu byte(s), alone at another address, are rejected (code %d at %zu)", (unsigned long long)ref.read, (int)r2.error.code, r2.error.position));
+          else {
+            uint64_t d2 = impl_observables_digest(alone);
+            if (d1 != d2) fail("C14", "tree-depends-on-buffer-alignment", where + fmt(": decoding the item's own %llu byte(s) alone, from a block starting %u byte(s) off, gives a tree whose getters show something else (lengths, code-point counts, values or payloads differ)", (unsigned long long)ref.read, shift));
+            sa_begin(FaultSpec()); cbor_decref(&alone); sa_end();
+          }
+          free(raw); stat_add("items_decoded_again_at_another_alignment");
+        }
+      }
       if (!failed() && o.post_ops) {
         unsigned char* buf = nullptr; size_t bs = 0;
         sa_begin(FaultSpec());
